@@ -33,10 +33,10 @@ def _acf_sum(p, n, tmax):
     return tot, c(0)
 
 
-def h_opa(B, n=5, p=2, npca=2, tau_max=1, names=None):
-    kw = {}
+def h_opa(B, n=5, p=2, npca=2, tau_max=1, names=None, flags=None):
+    kw = dict(flags or {})
     if names:
-        kw = {"sample_name": names[0], "feature_name": names[1]}
+        kw.update({"sample_name": names[0], "feature_name": names[1]})
     X = da2d(B, "x", n, p)
     model = M.single("OPA", n_modes=npca, tau_max=tau_max, n_pca_modes=npca, solver="full", **kw)
     r = B.completes("OPA.fit runs", lambda: model.fit(X, "time"))
@@ -49,6 +49,8 @@ def h_opa(B, n=5, p=2, npca=2, tau_max=1, names=None):
     k = P.shape[1]
     G = P.T @ P
     for i in range(k):
+        # zero time mean: only then 'orthogonal' below means 'uncorrelated' and c(tau) is an autocovariance
+        B.eq(f"score series {i + 1} has zero time mean", np.sum(P[:, i]), 0.0)
         for j in range(i + 1, k):
             B.eq(f"score series {i + 1},{j + 1} are uncorrelated", G[i, j], 0.0)
         if i > 0:
@@ -78,6 +80,7 @@ def configs(tier):
     add("OPA|n5|tau1", n=5, tau_max=1)
     add("OPA|n6|tau2", n=6, tau_max=2)
     add("OPA|n5|tau1|names=s,f", n=5, tau_max=1, names=("s", "f"))
+    add("OPA|n5|tau1|center=False", n=5, tau_max=1, flags={"center": False})  # the series are anomalies whatever the model's own centring flag
     if tier == "thorough":
         add("OPA|n7|p3|npca3|tau2", n=7, p=3, npca=3, tau_max=2)
     return out
